@@ -292,7 +292,8 @@ def impl_builtin(case):
         if case["det"] == "capa":
             det = CAPA(_mk_saving(case["saving"]), _mk_saving("l2saving" if case["saving"] == "gaussvar" else case["saving"]),
                        collective_penalty_scale=case["cscale"], point_penalty_scale=case["pscale"],
-                       min_segment_length=m, max_segment_length=M).fit(X)
+                       min_segment_length=m, max_segment_length=M)
+            _, nfit = core.fit_for(det, dict(case, container="ndarray"), X, reps=2)
             ca, cb = float(det.collective_penalty_), [0.0] * p
             pa, pb = float(det.point_penalty_), [0.0] * p
         else:
@@ -301,7 +302,10 @@ def impl_builtin(case):
             det = MVCAPA(_mk_saving(case["saving"]), _mk_saving("l2saving" if case["saving"] == "gaussvar" else case["saving"]),
                          collective_penalty=case["cfam"], collective_penalty_scale=case["cscale"],
                          point_penalty=case["pfam"], point_penalty_scale=case["pscale"],
-                         min_segment_length=m, max_segment_length=M).fit(X)
+                         min_segment_length=m, max_segment_length=M)
+            # fitted on the data, on a series of another length, or on an object overwritten in place afterwards; MVCAPA
+            # builds its penalties at predict time from the shape of the data it is given (CAPA: fitted collective_penalty_)
+            core.fit_for(det, dict(case, container="ndarray"), X, reps=2)
             k = sav.get_param_size(1)
             ca, cb = capa_penalty_factory(case["cfam"])(n, p, k, scale=case["cscale"])
             pa, pb = capa_penalty_factory(case["pfam"])(n, p, psav.get_param_size(1), scale=case["pscale"])
